@@ -365,6 +365,27 @@ func FamilyUpdate(thorough bool) []*Conv {
 			}
 		}
 	}
+	// an extend function with the same (source, *target) pair as the update method does not replace the update
+	for _, f := range []string{"struct", "function", "variable"} {
+		for _, withErr := range []bool{false, true} {
+			n++
+			fres, body := "*PFXOut", "return &PFXOut{}"
+			if withErr {
+				fres, body = "(*PFXOut, error)", "return &PFXOut{}, nil"
+			}
+			out = append(out, &Conv{
+				ID:      fmt.Sprintf("update/with_same_pair_extend/err%v/%s", withErr, f),
+				Family:  "update",
+				Format:  f,
+				Params:  "source PFXIn, target *PFXOut",
+				Results: "error",
+				Decls:   "type PFXIn struct {\n\tA int\n\tB string\n\tKeep int\n}\ntype PFXOut struct {\n\tA int\n\tB string\n\tKeep int\n\tOnly string\n}\n" + fmt.Sprintf("func PFXMk(s PFXIn) %s { %s }\n", fres, body),
+				ConvLines:   []string{"extend PFXMk"},
+				MethodLines: []string{"update target", "ignore Keep Only"},
+				Spec: &Spec{Update: &UpdateSpec{}, Pairs: map[string]*PairSpec{"PFXIn→PFXOut": {Fields: map[string]*FieldSpec{"Keep": {Ignore: true}, "Only": {Ignore: true}}}}},
+			})
+		}
+	}
 	// enum-typed fields belong to the basic category
 	for cats := 0; cats < 8; cats++ {
 		if !thorough && cats != 0 && cats != 1 && cats != 6 && cats != 7 {
@@ -646,6 +667,20 @@ func FamilySameType(thorough bool) []*Conv {
 	add := func(s shape) {
 		out = append(out, shapeConv("sametype", s, formats[fi%3], nil, nil))
 		fi++
+	}
+	// a value of a type converted to a pointer to the same type (and back), at several positions
+	for i, inner := range []string{"[]int", "*int", "map[string]int"} {
+		k := g.id()
+		d := fmt.Sprintf("type PFXAd%d struct {\n\tRefs %s\n\tN int\n}\n", k, inner)
+		for _, pos := range []struct{ name, src, tgt string }{
+			{"top", fmt.Sprintf("PFXAd%d", k), fmt.Sprintf("*PFXAd%d", k)},
+			{"field", fmt.Sprintf("struct{ Ship PFXAd%d; X int }", k), fmt.Sprintf("struct{ Ship *PFXAd%d; X int }", k)},
+			{"elem", fmt.Sprintf("[]PFXAd%d", k), fmt.Sprintf("[]*PFXAd%d", k)},
+			{"mapval", fmt.Sprintf("map[string]PFXAd%d", k), fmt.Sprintf("map[string]*PFXAd%d", k)},
+		} {
+			add(shape{Src: pos.src, Tgt: pos.tgt, Name: fmt.Sprintf("addr_same_%s_%d", pos.name, i), Decls: []string{d}})
+		}
+		add(shape{Src: fmt.Sprintf("*PFXAd%d", k), Tgt: fmt.Sprintf("PFXAd%d", k), Name: fmt.Sprintf("deref_same_%d", i), Decls: []string{d}, NeedZero: true})
 	}
 	leaves := []shape{{Src: "int", Tgt: "int", Name: "int"}, {Src: "*int", Tgt: "*int", Name: "pint"}, {Src: "[]string", Tgt: "[]string", Name: "strs"}}
 	for _, l := range leaves {
